@@ -24,6 +24,13 @@ PROPS = {
         units=[
         unit("c03", "route", ROUTE_COMMON + ["route/c03_test.go"], "^TestVerifC03"),
     ], layers={"quick": ["c03-select", "c03-lookuphost"], "thorough": ["c03-select", "c03-lookuphost"]}),
+    "C04": dict(level="exploration", engine="benum",
+        technique="bounded-exhaustive enumeration of weight vectors and `route weight` programs; full round-robin cycles and every random-source answer enumerated",
+        level_text="Every weight vector of 1..4 (thorough: 5) targets over 13 weights through `route add`, and every `route weight` form over 2 services x 4 tag sets, checked on the real weighTargets/setWeight/rrPicker/rndPicker against an independent computation of the documented rule; ring shares, one full round-robin cycle and every answer of the random source are enumerated, not sampled.",
+        level_note="Weights outside the alphabet (non-finite, denormal, huge) are decided under C02 (never crash). Floating point comparison tolerance 1e-9; ring tolerance (k+1)/(10000-k).",
+        units=[
+        unit("c04", "route", ROUTE_COMMON + ["route/c04_test.go"], "^TestVerifC04"),
+    ], layers={"quick": ["c04-add", "c04-weightcmd"], "thorough": ["c04-add", "c04-weightcmd"]}),
 }
 
 def layer_unit(pid, layer):
